@@ -515,4 +515,57 @@ theorem frame_core (encoded : Bytes) (ps : Nat) (r' : CutResult) (a b c d : UInt
       rw [Array.getElem?_eq_none (by omega)]
       rfl
 
+/-- **`zlibcut.Cut` leaves the bytes at positions ≥ `encodedLen` alone — for arbitrary bytes and any limit.** -/
+theorem Cut_frame (encoded : Bytes) (limit : Int) (r : CutResult) (h : ZlibCut.Cut encoded limit = .ok r) :
+    ∀ k, r.encodedLen ≤ k → r.encoded.getD k 0 = encoded.getD k 0 := by
+  simp only [ZlibCut.Cut] at h
+  split at h
+  · simp at h
+  split at h
+  · simp at h
+  split at h
+  · simp at h
+  by_cases hd : (encoded.getD 1 0).toNat / 32 % 2 = 1
+  · simp only [hd, true_and, if_true] at h
+    split at h
+    · simp at h
+    split at h
+    · simp at h
+    split at h
+    · simp at h
+    split at h
+    · simp at h
+    rename_i r' hcut
+    split at h
+    · simp at h
+    simp only [Except.ok.injEq] at h
+    subst h
+    have hfr := Cut.Cut_frame _ _ _ _ hcut
+    obtain ⟨_, _, hsz⟩ := Cut.Cut_lengths_in_bounds _ _ _ _ hcut
+    simp only [Array.size_extract] at hsz
+    have hps : 6 + 4 ≤ encoded.size := by omega
+    have hsz' : r'.encoded.size = encoded.size - 4 - 6 := by omega
+    intro k hk
+    simp only [] at hk ⊢
+    exact frame_core encoded 6 r' _ _ _ _ hps hfr hsz' k hk
+  · simp only [hd, false_and, if_false] at h
+    split at h
+    · simp at h
+    split at h
+    · simp at h
+    split at h
+    · simp at h
+    rename_i r' hcut
+    split at h
+    · simp at h
+    simp only [Except.ok.injEq] at h
+    subst h
+    have hfr := Cut.Cut_frame _ _ _ _ hcut
+    obtain ⟨_, _, hsz⟩ := Cut.Cut_lengths_in_bounds _ _ _ _ hcut
+    simp only [Array.size_extract] at hsz
+    have hps : 2 + 4 ≤ encoded.size := by omega
+    have hsz' : r'.encoded.size = encoded.size - 4 - 2 := by omega
+    intro k hk
+    simp only [] at hk ⊢
+    exact frame_core encoded 2 r' _ _ _ _ hps hfr hsz' k hk
 end WuffsVerif.Flate.ZlibCut
